@@ -68,6 +68,7 @@ var c18Sites = []c18Site{
 	{"store/resume", "milvus", 1}, {"store/resume", "milvus", 2}, {"store/resume", "milvus", 3},
 	{"store/delete", "milvus", 1}, {"store/delete", "milvus", 3}, {"store/delete", "milvus", 5},
 	{"store/get-list", "milvus", 1},
+	{"store/corrupt-record", "milvus", 0}, {"store/corrupt-record", "kafka", 0},
 	{"reload/unreachable", "milvus", 0}, {"reload/reachable", "milvus", 0}, {"reload/disable-auto-start", "milvus", 0},
 	{"reload/store", "milvus", 1}, {"reload/store", "milvus", 2}, {"reload/store", "milvus", 3}, {"reload/store", "milvus", 4},
 	{"happy", "kafka", 0}, {"valid/empty-topic", "kafka", 0}, {"store/create", "kafka", 2}, {"store/create", "kafka", 4},
@@ -689,6 +690,59 @@ func (x *c18Exec) scenario() {
 		x.call("delete", map[string]any{"task_id": id})
 		x.look(id)
 
+	case kind == "store/corrupt-record":
+		// the stored record of the task cannot be decoded by this binary (written by another version, edited by hand):
+		// every request that reads it fails - and must not put the record's credentials into the log or the answer
+		r := x.call("create", x.createReq())
+		id := taskIDOf(r)
+		if id == "" {
+			x.res.inconclusive = fmt.Sprintf("create failed: %d %s", r.Code, r.Message)
+			return
+		}
+		x.look(id)
+		key := x.s.w.MetaRoot + "/task_info/" + id
+		ctx, cancel := context.WithTimeout(context.Background(), 10*time.Second)
+		got, err := x.s.w.Etcd.Client.Get(ctx, key)
+		cancel()
+		if err != nil || len(got.Kvs) != 1 {
+			x.res.inconclusive = fmt.Sprintf("the task record %s was not found in etcd (%v)", key, err)
+			return
+		}
+		raw := string(got.Kvs[0].Value)
+		bad := strings.Replace(raw, `"State":1`, `"State":"Running"`, 1)
+		if bad == raw {
+			bad = strings.Replace(raw, `"state":1`, `"state":"Running"`, 1)
+		}
+		if bad == raw {
+			x.res.inconclusive = "the task record has no State field to spoil: " + c18Short(raw)
+			return
+		}
+		ctx, cancel = context.WithTimeout(context.Background(), 10*time.Second)
+		_, err = x.s.w.Etcd.Client.Put(ctx, key, bad)
+		cancel()
+		if err != nil {
+			x.res.inconclusive = "spoiling the task record: " + err.Error()
+			return
+		}
+		failed := 0
+		for _, t := range []string{"get", "list", "pause", "position", "delete"} {
+			data := map[string]any{"task_id": id}
+			if t == "list" {
+				data = map[string]any{}
+			}
+			if rr := x.call(t, data); rr.Code != 200 {
+				failed++
+			}
+		}
+		x.note("undecodable task record: %d of 5 requests refused", failed)
+		if failed > 0 {
+			x.site(kind)
+		}
+		if err := x.restart(); err != nil { // ReloadTask reads the same record
+			x.note("restart over the undecodable record: %v", err)
+		}
+		x.call("list", map[string]any{})
+
 	case strings.HasPrefix(kind, "store/"):
 		op := strings.TrimPrefix(kind, "store/")
 		id := ""
@@ -947,4 +1001,11 @@ func onlyLogSites(sites []string) bool {
 		}
 	}
 	return true
+}
+
+func c18Short(t string) string {
+	if len(t) > 200 {
+		return t[:200] + "..."
+	}
+	return t
 }
